@@ -250,7 +250,7 @@ def weave(unit_path, repo, verif_root, vacuity=False):
             relfile, selector = relfile.strip(), selector.strip()
             i += 1
             opts = {"as": None, "ret": None, "pub": False, "attrs": False, "subs": [], "noauto": False,
-                    "sigonly": False, "external_body": False, "spec": [], "loops": {}, "afterloops": {}, "anchors": [], "hoist": [], "replace_body": False, "assumed_from": None}
+                    "sigonly": False, "external_body": False, "spec": [], "loops": {}, "afterloops": {}, "anchors": [], "hoist": [], "replace_body": False, "assumed_from": None, "derive_keep": None}
             while i < len(lines):
                 t = lines[i].strip()
                 if t == "//@end":
@@ -271,8 +271,9 @@ def weave(unit_path, repo, verif_root, vacuity=False):
                     opts["pub"] = True
                 elif d == "attrs":
                     opts["attrs"] = True
-                elif d == "attrs derive":
+                elif d == "attrs derive" or d.startswith("attrs derive "):
                     opts["attrs"] = "derive"
+                    opts["derive_keep"] = [x.strip() for x in d[len("attrs derive"):].split(",") if x.strip()]
                 elif d == "replace_body":
                     opts["replace_body"] = True
                 elif d == "noauto":
@@ -349,6 +350,13 @@ def _do_extract_impl(repo, relfile, selector, opts, sources, log, extracted, len
         derives = re.findall(r"#\[derive\([^\]]*\)\]", src.text[s0:s])
         if not derives:
             raise LostAnchor("%s %s: no #[derive(..)] attribute found" % (relfile, selector))
+        keep = opts.get("derive_keep")
+        if keep:
+            have = [x.strip() for dd in derives for x in re.match(r"#\[derive\((.*)\)\]", dd, re.S).group(1).split(",")]
+            missing = [k for k in keep if k not in have]
+            if missing:
+                raise LostAnchor("%s %s: derive(%s) no longer present" % (relfile, selector, ",".join(missing)))
+            derives = ["#[derive(%s)]" % ", ".join(keep)]
         attr_prefix = "\n".join(derives) + "\n"
         log.append({"rule": "R4b", "where": "%s:%d" % (relfile, src.line_of(s0)), "fn": selector,
                     "before": " ".join(src.text[s0:s].split())[:200], "after": "kept only: " + " ".join(derives)})
